@@ -300,3 +300,217 @@ def u_exit(c):
     st, res = run(it, it.getattr(itor, "exit"), [])
     c.prove("no-raise", st == "ok")
     c.prove("ensures/close-once-each-in-order", c.log == CL.at(n))
+
+
+# ---------------------------------------------------------------------------------------------
+# fits_selector
+# ---------------------------------------------------------------------------------------------
+fs_ce = z3.Function("fs_check_element", Val, Val, Val, z3.BoolSort())
+
+
+def _ce_uf(it, f, args, kwargs):
+    el, name, cat = args
+    return concretize(SBool(fs_ce(it.to_val(el), it.to_val(name), it.to_val(cat))))
+
+
+@unit("fits_selector", ["C03", "C10", "C11"], [O + ":fits_selector"], mode="bounded",
+      bound="<=2 captures per selector level, <=3 variables in the function table (concrete spine, symbolic matching)")
+def u_fits(c):
+    """fits_selector(fn, sel) is False iff the function element mismatches (name / return-annotation tag) or some capture
+    cannot be located; otherwise the capture map: generic capture -> ALL matching variable names (table order),
+    named capture -> [its name] provided its base name is in the table or it is a #meta name."""
+    it = Interp(c, policies={S + ":check_element": _ce_uf})
+    fcat = [None, "RET"][c.choose(2)]
+    nvars = c.choose(3) + 1
+    varnames = ["a", "b", "cc"][:nvars]
+    info = {v: {"annotation": f"ann_{v}"} for v in varnames}
+    anns = {"return": fcat} if fcat is not None else {}
+    fn = SymObj("fn", Val.ref(z3.IntVal(c.new_id())), attrs={"__annotations__": anns, "__ptera_info__": info})
+    el = SymObj("fel", Val.ref(z3.IntVal(c.new_id())))
+    caps = []
+    for i in range(c.choose(3)):
+        kind = c.choose(4)
+        name = [None, "a", "zz.attr", "#value"][kind]
+        if kind == 2 and c.choose(2):
+            name = "b.attr"
+        caps.append(SymObj(f"cap{i}", Val.ref(z3.IntVal(c.new_id())), attrs={"name": name}))
+    sel = SymObj("sel", Val.ref(z3.IntVal(c.new_id())), attrs={"element": el, "captures": tuple(caps)})
+    st, res = run(it, it.get_global(O, "fits_selector"), [fn, sel])
+    c.prove("no-raise", st == "ok")
+    el_ok = fs_ce(it.to_val(el), it.to_val(fn), it.to_val(fcat))
+    fail = [z3.Not(el_ok)]
+    exp = {}
+    for cap in caps:
+        nm = cap.attrs["name"]
+        if nm is None:
+            ms = [fs_ce(it.to_val(cap), it.to_val(v), it.to_val(info[v]["annotation"])) for v in varnames]
+            fail.append(z3.Not(z3.Or(*ms)))
+            exp[cap] = ms
+        else:
+            base = nm.split(".")[0]
+            if not nm.startswith("#") and base not in info:
+                fail.append(z3.BoolVal(True))
+            exp[cap] = nm
+    if res is False:
+        c.cover("False")
+        c.prove("ensures/False-only-if-mismatch", z3.Or(*fail))
+    else:
+        c.cover("map")
+        c.prove("ensures/map-only-if-everything-located", z3.Not(z3.Or(*fail)))
+        ok = isinstance(res, dict) and list(res.keys()) == caps
+        c.prove("ensures/map-keys-are-the-captures-in-order", ok)
+        if ok:
+            for cap in caps:
+                e = exp[cap]
+                if isinstance(e, str):
+                    c.prove("ensures/named-capture-maps-to-its-name", res[cap] == [e])
+                else:
+                    got = res[cap]
+                    conj = [z3.BoolVal(all(g in varnames for g in got) and got == [v for v in varnames if v in got])]
+                    for v, m in zip(varnames, e):
+                        conj.append(m if v in got else z3.Not(m))
+                    c.prove("ensures/generic-capture-maps-to-all-matching-variables", z3.And(*conj))
+
+
+# ---------------------------------------------------------------------------------------------
+# HandlerCollection.plus, BaseOverlay.__enter__/__exit__, proceed.__enter__/__exit__
+# ---------------------------------------------------------------------------------------------
+handlers_t = z3.Const("handlers_t", Log)
+oldpairs_t = z3.Const("oldpairs_t", Log)
+attr_selector = z3.Function("attr_selector", Val, Val)
+
+
+def _current_var(it):
+    HC = it.get_global(O, "HandlerCollection")
+    return HC, HC.attrs["current"]
+
+
+def _own_pairs_term():
+    return M.seq_map(handlers_t, M.mk_tuple2(attr_selector(M.HOLE), M.HOLE))
+
+
+@unit("BaseOverlay.enter-exit", ["C05", "C17"], [O + ":BaseOverlay.__enter__", O + ":BaseOverlay.__exit__", O + ":HandlerCollection.plus",
+                                                O + ":HandlerCollection.__init__"],
+      assumed=["contextvars.ContextVar: get() returns the current value (or the default), set(v) returns a token remembering the previous value, reset(token) restores it"])
+def u_overlay_enter_exit(c):
+    """__enter__ installs a NEW collection whose pairs are the previous pairs followed by (h.selector, h) for each own
+    handler, each exactly once (any number of handlers); the previous collection object is not modified.  __exit__ must
+    leave exactly the pairs that were current at exit time minus its own."""
+    it = Interp(c)
+    it.val_attrs = {"selector"}
+    HC, var = _current_var(it)
+    n = z3.Int("n")
+    c.inputs["n"] = SInt(n)
+    c.assume(n >= 0)
+    empty = c.decide(n == 0)
+    if empty:
+        handlers = []
+    else:
+        handlers = SymSeq("handlers", n, lambda i: SVal(z3.Const("never", Val)))
+        handlers.term = handlers_t
+    ov = mk_obj(it, O, "BaseOverlay", handlers=handlers)
+    had = c.choose(2)
+    if had:
+        prev_pairs = SymSeq("old_pairs", z3.Int("m"), lambda i: None)
+        prev_pairs.term = oldpairs_t
+        prev = mk_obj(it, O, "HandlerCollection", handler_pairs=prev_pairs)
+        var.value = prev
+    else:
+        prev = None
+    st, col = run(it, it.getattr(ov, "__enter__"), [])
+    c.prove("enter/no-raise", st == "ok")
+    if st != "ok":
+        return
+    if empty:
+        c.prove("enter/no-handlers-is-a-noop", var.value is prev and col is None)
+        st, _ = run(it, it.getattr(ov, "__exit__"), [None, None, None])
+        c.prove("exit/no-handlers-is-a-noop", st == "ok" and var.value is prev)
+        return
+    cur = var.value
+    c.prove("enter/installs-new-collection", isinstance(cur, Obj) and cur.cls is HC and cur is not prev and col is cur)
+    own = _own_pairs_term()
+    want = log_cat(oldpairs_t, own) if had else own
+    c.prove("enter/pairs==previous++own-each-once", it.models.listterm_of(it, cur.fields["handler_pairs"]) == want)
+    if had:
+        c.prove("enter/previous-collection-not-modified", prev.fields["handler_pairs"] is prev_pairs)
+    # LIFO exit: the collection this overlay installed is still the current one
+    lifo = c.choose(2)
+    if lifo == 0:
+        c.cover("lifo")
+        st, _ = run(it, it.getattr(ov, "__exit__"), [None, None, None])
+        c.prove("exit/no-raise", st == "ok")
+        c.prove("exit/LIFO-restores-previous", var.value is prev)
+    else:
+        # non-LIFO: another overlay Y was activated afterwards and is still active: current = cur ++ ypairs
+        c.cover("non-lifo")
+        ypairs = z3.Const("ypairs_t", Log)
+        later = mk_obj(it, O, "HandlerCollection", handler_pairs=ListTerm(log_cat(want, ypairs)))
+        var.value = later
+        st, _ = run(it, it.getattr(ov, "__exit__"), [None, None, None])
+        c.prove("exit/no-raise", st == "ok")
+        after = var.value
+        exp = log_cat(oldpairs_t, ypairs) if had else ypairs
+        ok = isinstance(after, Obj) and after.cls is HC
+        c.prove("exit/non-LIFO-removes-exactly-own-handlers",
+                ok and it.models.listterm_of(it, after.fields["handler_pairs"]) == exp, only=["C05"])
+
+
+ev_proceed = z3.Function("ev_proceed", Val, Val, Val)
+ev_exit = z3.Function("ev_itor_exit", Val, Val)
+
+
+@unit("proceed.enter-exit", ["C03", "C07", "C09", "C05"], [O + ":proceed.__init__", O + ":proceed.__enter__", O + ":proceed.__exit__"],
+      assumed=["contextvars.ContextVar token semantics", "HandlerCollection.proceed used through its contract"])
+def u_proceed_enter_exit(c):
+    """with proceed(fn): __enter__ sets current to the collection returned by (current or empty).proceed(fn) and yields
+    its interactor; __exit__ (normal or exceptional) restores the collection that was current at entry and calls
+    interactor.exit() exactly once; if other code changed `current` meanwhile (suspended generator), its value must survive."""
+    it = Interp(c)
+    HC, var = _current_var(it)
+    fn = SymObj("fn", Val.ref(z3.IntVal(c.new_id())))
+    calls = []
+
+    def proceed_summary(it_, f, args, kwargs):
+        self_, fn_ = args
+        calls.append(self_)
+        new = mk_obj(it_, O, "HandlerCollection", handler_pairs=[])
+        exits = []
+
+        def do_exit(it__, a, k):
+            exits.append(1)
+
+        s = SummaryFn("exit", do_exit)
+        s.is_method = True
+        itor = SymObj("itor", Val.ref(z3.IntVal(it_.ctx.new_id())), attrs={"exit": s, "_exits": exits})
+        it_.ctx.__dict__["made"] = (itor, new)
+        return (itor, new)
+
+    it.policies[PROCEED] = proceed_summary
+    had = c.choose(2)
+    prev = mk_obj(it, O, "HandlerCollection", handler_pairs=[("s", "a")]) if had else None
+    var.value = prev
+    p = it.call(it.get_global(O, "proceed"), [fn], {})
+    st, got = run(it, it.getattr(p, "__enter__"), [])
+    c.prove("enter/no-raise", st == "ok")
+    if st != "ok":
+        return
+    itor, new = c.__dict__["made"]
+    c.prove("enter/proceeds-from-current-or-empty", len(calls) == 1 and (calls[0] is prev if had else (isinstance(calls[0], Obj) and calls[0].fields["handler_pairs"] == [])))
+    c.prove("enter/installs-new-and-yields-interactor", var.value is new and got is itor)
+    exc = c.choose(2)
+    args = [None, None, None] if not exc else [ValueError, ValueError("boom"), None]
+    scen = c.choose(2)
+    if scen == 0:
+        st, r = run(it, it.getattr(p, "__exit__"), args)
+        c.prove("exit/no-raise", st == "ok")
+        c.prove("exit/restores-collection-at-entry", var.value is prev)
+        c.prove("exit/interactor.exit-once", len(itor.attrs["_exits"]) == 1)
+        c.prove("exit/does-not-swallow-exceptions", not it.truth(r))
+    else:
+        # the activation was suspended (generator) and the surrounding code installed X meanwhile
+        X = mk_obj(it, O, "HandlerCollection", handler_pairs=[("x", "x")])
+        var.value = X
+        st, r = run(it, it.getattr(p, "__exit__"), args)
+        c.prove("exit/no-raise", st == "ok")
+        c.prove("exit/interactor.exit-once", len(itor.attrs["_exits"]) == 1)
+        c.prove("exit/non-LIFO-does-not-disturb-surrounding-handlers", var.value is X, only=["C09"])
